@@ -180,7 +180,9 @@ def apply_directive(fs, d, tmpl_name):
         e, t = split_tag(rest)
         getattr(fs, kw).append((e, t))
     elif kw == "closure":
+        rest, ctags = split_tag(rest)
         pos, kws = parse_fields(rest)
+        kws["tags"] = ctags
         n = int(pos[0]) if pos[0].isdigit() else pos[0]
         fs.closures[n] = {"params": pos[1] if len(pos) > 1 else None,
                           "ret": pos[2] if len(pos) > 2 else "-", **kws}
@@ -459,7 +461,7 @@ def fmt_clauses(kind, clauses, fnkey, ftags, em, indent, lines_out, prefix):
     lines_out.append("%s%s" % (indent, kind))
     for n, (expr, tags) in enumerate(clauses, 1):
         obid = "%s#%s%d" % (fnkey, prefix, n)
-        tg = tags if tags is not None else ftags
+        tg = tags if tags is not None else [t for t in ftags if t != "C16"]
         elines = expr.split("\n")
         start = len(lines_out)
         for i, el in enumerate(elines):
@@ -591,7 +593,8 @@ def instantiate_fn(fs, item, em):
                     for ci, cexpr in enumerate(cs, 1):
                         obid = "%s#cl[%s]%s%d" % (fnkey, n, kind[:3], ci)
                         cl.append("    %s,  /*@ob %s*/" % (cexpr, obid))
-                        em._pending.append({"id": obid, "kind": "closure-" + kind, "fn": fnkey, "tags": list(fs.tags),
+                        em._pending.append({"id": obid, "kind": "closure-" + kind, "fn": fnkey,
+                                            "tags": list(spec.get("tags") or [t for t in fs.tags if t != "C16"]),
                                             "text": cexpr, "marker": obid})
             ctext = ("\n" + "\n".join("                " + x for x in cl) + "\n            ") if cl else " "
             b1, b2 = toks[c["bar1"]], toks[c["bar2"]]
@@ -623,7 +626,7 @@ def instantiate_fn(fs, item, em):
                     for ci, cexpr in enumerate(split_top(spec[kind]), 1):
                         obid = "%s#loop%d%s%d" % (fnkey, n, kind[:3], ci)
                         ltxt.append("    %s,  /*@ob %s*/" % (cexpr, obid))
-                        em._pending.append({"id": obid, "kind": "loop-" + kind, "fn": fnkey, "tags": list(fs.tags),
+                        em._pending.append({"id": obid, "kind": "loop-" + kind, "fn": fnkey, "tags": [t for t in fs.tags if t != "C16"],
                                             "text": cexpr, "marker": obid})
             bo = toks[L["body_open"]]
             edits.append((bo.start, bo.start, "\n" + "\n".join("                " + x for x in ltxt) + "\n            "))
@@ -647,7 +650,7 @@ def instantiate_fn(fs, item, em):
                     for ci, cexpr in enumerate(split_top(spec[kind]), 1):
                         obid = "%s#%s.%s%d" % (fnkey, nname, kind[:3], ci)
                         ntxt.append("    %s,  /*@ob %s*/" % (cexpr, obid))
-                        em._pending.append({"id": obid, "kind": "nested-" + kind, "fn": fnkey, "tags": list(fs.tags),
+                        em._pending.append({"id": obid, "kind": "nested-" + kind, "fn": fnkey, "tags": [t for t in fs.tags if t != "C16"],
                                             "text": cexpr, "marker": obid})
             edits.append((off + sub.sig_end, off + sub.sig_end,
                           "\n" + "\n".join("            " + x for x in ntxt) + "\n        "))
@@ -678,7 +681,7 @@ def instantiate_fn(fs, item, em):
                                     obid = "%s#ext%dinv%d" % (fnkey, cnt, ci)
                                     inv.append("    %s,  /*@ob %s*/" % (cexpr, obid))
                                     em._pending.append({"id": obid, "kind": "loop-invariant", "fn": fnkey,
-                                                        "tags": list(fs.tags), "text": cexpr, "marker": obid})
+                                                        "tags": [t for t in fs.tags if t != "C16"], "text": cexpr, "marker": obid})
                             # shape `BASE.map(CLOSURE)`: iterate BASE and call the closure explicitly
                             # (definition of Iterator::map + Extend); otherwise iterate ITER as is.
                             mk = None
@@ -796,7 +799,7 @@ def instantiate_fn(fs, item, em):
                                     obid = "%s#fold%dinv%d" % (fnkey, cnt, ci)
                                     inv.append("    %s,  /*@ob %s*/" % (cexpr, obid))
                                     em._pending.append({"id": obid, "kind": "loop-invariant", "fn": fnkey,
-                                                        "tags": list(fs.tags), "text": cexpr, "marker": obid})
+                                                        "tags": [t for t in fs.tags if t != "C16"], "text": cexpr, "marker": obid})
                             edits.append((toks[r].start, toks[k + 6].end, "{ let __src = %s.into_iter(); let mut __acc = " % recv))
                             edits.append((toks[comma].start, toks[comma].end, "; let __f = "))
                             edits.append((toks[fclose].start, toks[fclose].end,
@@ -842,7 +845,7 @@ def instantiate_fn(fs, item, em):
                                     obid = "%s#%s%dinv%d" % (fnkey, meth[:2] + "c", cnt, ci)
                                     inv.append("    %s,  /*@ob %s*/" % (cexpr, obid))
                                     em._pending.append({"id": obid, "kind": "loop-invariant", "fn": fnkey,
-                                                        "tags": list(fs.tags), "text": cexpr, "marker": obid})
+                                                        "tags": [t for t in fs.tags if t != "C16"], "text": cexpr, "marker": obid})
                             edits.append((toks[r].start, toks[k + 6].end, "{ let __src = %s.into_iter(); let __f = " % recv))
                             if meth == "filter":
                                 step = "if __f(&__x) { __out.push(__x); }"
@@ -894,7 +897,7 @@ def instantiate_fn(fs, item, em):
                                     obid = "%s#fmc%dinv%d" % (fnkey, cnt, ci)
                                     inv.append("    %s,  /*@ob %s*/" % (cexpr, obid))
                                     em._pending.append({"id": obid, "kind": "loop-invariant", "fn": fnkey,
-                                                        "tags": list(fs.tags), "text": cexpr, "marker": obid})
+                                                        "tags": [t for t in fs.tags if t != "C16"], "text": cexpr, "marker": obid})
                             edits.append((toks[r].start, toks[k + 6].end, "{ let __src = %s.into_iter(); let __f = " % recv))
                             edits.append((toks[fclose].start, toks[fclose + 3].end, "; let __g = "))
                             edits.append((toks[mclose].start, endtok.end,
@@ -935,7 +938,7 @@ def instantiate_fn(fs, item, em):
                                     obid = "%s#fe%dinv%d" % (fnkey, cnt, ci)
                                     inv.append("    %s,  /*@ob %s*/" % (cexpr, obid))
                                     em._pending.append({"id": obid, "kind": "loop-invariant", "fn": fnkey,
-                                                        "tags": list(fs.tags), "text": cexpr, "marker": obid})
+                                                        "tags": [t for t in fs.tags if t != "C16"], "text": cexpr, "marker": obid})
                             edits.append((toks[r].start, toks[k + 6].start, "for %s in %s: %s\n" % (var, it, iter_txt) +
                                           "\n".join("                " + x for x in inv) + "\n            "))
                             if kws.get("body"):
@@ -981,7 +984,7 @@ def instantiate_fn(fs, item, em):
                                     obid = "%s#cr%dinv%d" % (fnkey, cnt, ci)
                                     inv.append("    %s,  /*@ob %s*/" % (cexpr, obid))
                                     em._pending.append({"id": obid, "kind": "loop-invariant", "fn": fnkey,
-                                                        "tags": list(fs.tags), "text": cexpr, "marker": obid})
+                                                        "tags": [t for t in fs.tags if t != "C16"], "text": cexpr, "marker": obid})
                             body_hint = kws.get("body", "")   # reused field: proof text placed at loop body start
                             rep = ("{ let mut __v: Vec<%s> = Vec::new(); for __x in %s: %s.iter()\n" % (ety, it, recv) +
                                    "\n".join("                " + x for x in inv) +
@@ -994,6 +997,32 @@ def instantiate_fn(fs, item, em):
                     k += 1
                 if not found:
                     degraded.append("collect_result rule: occurrence %d not found" % n)
+            elif rule == "rename_local":
+                # rule rename_local :: old :: new :: "anchor text that contains the binding occurrence" :: why
+                # alpha-renaming: the identifier token `old` at the anchor and every later occurrence in the body
+                old_n, new_n = pos[0], pos[1]
+                anchor = pos[2].strip('"') if len(pos) > 2 else None
+                why = pos[3] if len(pos) > 3 else ""
+                a_idx = text.find(anchor) if anchor else -1
+                if a_idx < 0:
+                    degraded.append("rename_local rule: anchor %r not found" % anchor)
+                else:
+                    cnt_r = 0
+                    first = True
+                    for t in toks[lo:hi]:
+                        if t.start < a_idx:
+                            continue
+                        if t.kind == "ident" and t.text == old_n:
+                            # the occurrence on the right-hand side of the binding statement itself still names the outer variable
+                            if first:
+                                first = False
+                                edits.append((t.start, t.end, new_n)); cnt_r += 1
+                                stmt_end = text.find(";", t.end)
+                                continue
+                            if t.start < stmt_end:
+                                continue
+                            edits.append((t.start, t.end, new_n)); cnt_r += 1
+                    log.append("R-rename-local: local `%s` renamed to `%s` (%d occurrences) (%s)" % (old_n, new_n, cnt_r, why))
             elif rule == "subst":
                 # closed, logged textual rewrite:  rule subst :: "<from>" :: "<to>" :: why
                 frm, to = pos[0].strip('"'), pos[1].strip('"')
